@@ -528,12 +528,44 @@ def check_object_forms(case):
          lambda s, q: meth(C(C(*s), C(*q)), f)(squeeze=False), tot, False, sc * L),
         # keyword call
         ("getX(sources=, observers=)", lambda s, q: gx(sources=s, observers=q, squeeze=False), ref, True, sc),
+        # positional flags in the documented order (sources, observers, sumup, squeeze, pixel_agg, output, in_out)
+        ("getX(sources, sensors, True) positional sumup", lambda s, q: gx(s, q, True),
+         call(lambda s, q: gx(s, q, sumup=True)), True, sc * L),
+        ("getX(sources, sensors, False, False) positional sumup, squeeze", lambda s, q: gx(s, q, False, False), ref, True, sc),
+        ("getX(sources, sensors, True, False, None, 'ndarray', 'auto') all positional",
+         lambda s, q: gx(s, q, True, False, None, "ndarray", "auto"),
+         call(lambda s, q: gx(s, q, sumup=True, squeeze=False)), True, sc * L),
+        ("getX(sources, sensors, False, True, agg) positional pixel_agg",
+         lambda s, q: gx(s, q, False, True, case.get("agg_form") or "mean"),
+         call(lambda s, q: gx(s, q, pixel_agg=case.get("agg_form") or "mean")), True, sc),
         ("getX(Collection(sources), Collection(sensors))", lambda s, q: pathfix(gx(C(*s), C(*q), squeeze=False)),
          tot, False, sc * L),
         ("Collection(sources+sensors).getX()", lambda s, q: meth(C(*s, *q), f)(squeeze=False), tot, False, sc * L),
         ("Collection(sensors+sources).getX()", lambda s, q: meth(C(*q, *s), f)(squeeze=False), tot, False, sc * L),
     ]
+    if K >= 2:
+        # observer collections of depth 2 with the nested collection BEFORE / BETWEEN its siblings: the sensors are
+        # taken depth first, i.e. in the order of coll.sensors_all = sensor list order here
+        def nest_first(q):
+            return C(C(q[0]), *q[1:])
+
+        def nest_mid(q):
+            return C(q[0], C(*q[1:-1], C(q[-1]))) if len(q) > 2 else C(C(C(q[0])), q[1])
+        for nm, mk in (("Collection(Collection(sensor_0), rest...)", nest_first),
+                       ("Collection(sensor_0, Collection(.., Collection(sensor_last)))", nest_mid)):
+            forms += [
+                (f"getX(sources, {nm})", lambda s, q, mk=mk: pathfix(gx(s, mk(q), squeeze=False)), ref, False, sc, True),
+                (f"src.getX({nm})", lambda s, q, mk=mk: pathfix(meth(s[0], f)(mk(q), squeeze=False)), ref[0:1], False,
+                 max(scale_of(ref[0]), floors[0])),
+                (f"{nm}.getX(*sources)", lambda s, q, mk=mk: pathfix(meth(mk(q), f)(*s, squeeze=False)), ref, False, sc,
+                 True),
+                (f"getX(sources, {nm}.sensors_all)", lambda s, q, mk=mk: pathfix(gx(s, mk(q).sensors_all, squeeze=False)),
+                 ref, False, sc, True),
+            ]
     if L >= 2:
+        # source side likewise: nested before sibling inside one collection is one summed source
+        forms.append(("getX(Collection(Collection(src_0), rest...), sensors)",
+                      lambda s, q: pathfix(gx(C(C(s[0]), *s[1:]), q, squeeze=False)), tot, False, sc * L))
         exp = np.concatenate([ref[0:1], np.sum(ref[1:], axis=0, keepdims=True)], axis=0)
         forms.append(("getX([src_0, Collection(rest)], sensors)",
                       lambda s, q: pathfix(gx([s[0], C(*s[1:])], q, squeeze=False)), exp, False, sc * L))
@@ -681,6 +713,17 @@ def check_dataframe(case):
     r2 = quiet(gx, srcs[0], sens, output="dataframe", pixel_agg=agg)
     if not d2.equals(r2):
         return fail("dataframe-values", trig + ":src-method", "src.getX(output='dataframe') differs from top level")
+    if len(case["sensors"]) >= 2:
+        srcs, sens = fresh(True)
+        dn = quiet(gx, srcs, magpy.Collection(magpy.Collection(sens[0]), *sens[1:]), output="dataframe", pixel_agg=agg,
+                   sumup=sumup)
+        srcs, sens = fresh(True)
+        dflat = quiet(gx, srcs, sens, output="dataframe", pixel_agg=agg, sumup=sumup)
+        if not dn.equals(dflat):
+            return fail("dataframe-order", "dataframe:nested-sensor-collection",
+                        "getX(sources, Collection(Collection(sensor_0), rest...), output='dataframe') differs from the "
+                        "frame of the flat sensor list (sensor column " + str(list(dict.fromkeys(dn["sensor"]))) + " vs "
+                        + str(list(dict.fromkeys(dflat["sensor"]))) + ")")
     srcs, sens = fresh(True)
     d3 = quiet(meth(sens[0], f), *srcs, output="dataframe", pixel_agg=agg, sumup=sumup)
     srcs, sens = fresh(True)
